@@ -67,28 +67,31 @@ type Fault struct {
 type crashSentinel struct{ at int }
 
 type API struct {
-	objs     map[string]map[string]runtime.Object
-	rv       int
-	uidn     int
-	now      int64 // logical seconds, advanced on every create
-	calls    []*Call
-	n        int // number of calls since ResetLog (reads included)
-	np       int // number of plan calls (everything but lists) since ResetLog
-	nl       int // number of list calls since ResetLog
-	faults   []Fault
-	before   func(k int, verb, res, name string)
-	onEvict  func(what, name string)
-	inHook   bool
-	quiet    bool // do not log (used by harness-side accesses through clients)
-	countAll bool // fault positions count list calls too (drivers whose subject is not the controller)
+	objs      map[string]map[string]runtime.Object
+	rv        int
+	uidn      int
+	now       int64 // logical seconds, advanced on every create
+	calls     []*Call
+	n         int // number of calls since ResetLog (reads included)
+	np        int // number of plan calls (everything but lists) since ResetLog
+	nl        int // number of list calls since ResetLog
+	faults    []Fault
+	before    func(k int, verb, res, name string)
+	onEvict   func(what, name string)
+	logEvents bool                  // keep the watch streams (queue-driven behaviours)
+	evlog     map[string][]apiEvent // every change of every resource, in order (the watch streams)
+	inHook    bool
+	quiet     bool // do not log (used by harness-side accesses through clients)
+	countAll  bool // fault positions count list calls too (drivers whose subject is not the controller)
 }
 
 func NewAPI() *API {
-	return &API{objs: map[string]map[string]runtime.Object{}, now: 1000}
+	return &API{objs: map[string]map[string]runtime.Object{}, evlog: map[string][]apiEvent{}, now: 1000}
 }
 
 func (m *API) Reset() {
 	m.objs = map[string]map[string]runtime.Object{}
+	m.evlog = map[string][]apiEvent{}
 	m.rv, m.uidn, m.now = 0, 0, 1000
 	m.ResetLog()
 }
@@ -134,6 +137,9 @@ func (m *API) Put(res string, o runtime.Object) {
 		mo.SetUID(types.UID(fmt.Sprintf("uid-%d", m.uidn)))
 	}
 	m.objs[res][mo.GetName()] = o
+	if m.logEvents {
+		m.evlog[res] = append(m.evlog[res], apiEvent{Name: mo.GetName(), Obj: o.DeepCopyObject()})
+	}
 }
 
 func (m *API) Get(res, name string) runtime.Object {
@@ -143,7 +149,26 @@ func (m *API) Get(res, name string) runtime.Object {
 	return nil
 }
 
-func (m *API) Remove(res, name string) { delete(m.objs[res], name) }
+func (m *API) Remove(res, name string) {
+	if _, ok := m.objs[res][name]; ok && m.logEvents {
+		m.evlog[res] = append(m.evlog[res], apiEvent{Name: name})
+	}
+	delete(m.objs[res], name)
+}
+
+// sameButRV: the two versions differ in nothing but (possibly) the resourceVersion.
+func sameButRV(old, nw runtime.Object) bool {
+	a, b := old.DeepCopyObject(), nw.DeepCopyObject()
+	meta(a).SetResourceVersion("")
+	meta(b).SetResourceVersion("")
+	return apiequality.Semantic.DeepEqual(a, b)
+}
+
+// apiEvent: one entry of the watch stream of a resource (Obj == nil: the object was deleted).
+type apiEvent struct {
+	Name string
+	Obj  runtime.Object
+}
 
 func (m *API) Names(res string) []string {
 	names := make([]string, 0, len(m.objs[res]))
@@ -417,6 +442,9 @@ func (m *API) exec(a core.Action, res string, c *Call) (runtime.Object, error) {
 				p.Status = old.(*v1.Pod).Status
 			}
 		}
+		if res == RPods && sameButRV(old, o) { // a write that changes nothing is not a new version (no watch event)
+			return old.DeepCopyObject(), nil
+		}
 		m.Put(res, o)
 		return o.DeepCopyObject(), nil
 	case "patch":
@@ -453,6 +481,9 @@ func (m *API) exec(a core.Action, res string, c *Call) (runtime.Object, error) {
 		if nctl > 1 {
 			return nil, apierrors.NewInvalid(schema.GroupKind{Kind: res}, pa.GetName(), nil)
 		}
+		if res == RPods && sameButRV(old, typed) {
+			return old.DeepCopyObject(), nil
+		}
 		m.Put(res, typed)
 		return typed.DeepCopyObject(), nil
 	case "delete":
@@ -477,7 +508,7 @@ func (m *API) exec(a core.Action, res string, c *Call) (runtime.Object, error) {
 				return nil, nil
 			}
 		}
-		delete(m.objs[res], name)
+		m.Remove(res, name)
 		return nil, nil
 	}
 	return nil, fmt.Errorf("unsupported %s %s", a.GetVerb(), res)
